@@ -196,4 +196,64 @@ def absEscAll (ver : Ver) (canEnc : Nat → Bool) (attr : Bool) : List Nat → E
     let b ← absEscAll ver canEnc attr cs
     pure (a ++ b)
 
+
+/-! ## CDATA sections -/
+
+def OPEN : List Nat := [60, 33, 91, 67, 68, 65, 84, 65, 91]     -- <![CDATA[
+def CLOSE : List Nat := [93, 93, 62]                            -- ]]>
+
+/-- `writeCDATAChars` (with the `]]>` split, the references for CR / NEL / LSEP / XML 1.1 restricted characters and for
+characters the encoding cannot represent), stated on characters: what is written after `<![CDATA[` and whether
+the writer ends outside a section.  `skip` characters were already consumed by a `]]>` split. -/
+def absCD (ver : Ver) (ce : Nat → Bool) : List Nat → Nat → Bool → Except Err (List Nat × Bool)
+  | [], _, o => .ok ([], o)
+  | _ :: rest, skip + 1, o => absCD ver ce rest skip o
+  | c :: rest, 0, o =>
+    if c = 93 ∧ rest.take 2 = [93, 62] then do
+      let (b, o') ← absCD ver ce rest 2 false
+      pure ((if o then OPEN else []) ++ [93, 93] ++ CLOSE ++ OPEN ++ [62] ++ b, o')
+    else if c = 10 then do
+      let (b, o') ← absCD ver ce rest 0 o
+      pure (10 :: b, o')
+    else if c = 13 ∨ (ver = .v11 ∧ (pCharRefForbidden ver c = true ∨ c = 0x85 ∨ c = 0x2028)) then do
+      let (b, o') ← absCD ver ce rest 0 o
+      pure ((if o then ncrText c else CLOSE ++ ncrText c ++ OPEN) ++ b, o')
+    else if pCharRefForbidden ver c then .error .forbidden
+    else if ce c then do
+      let (b, o') ← absCD ver ce rest 0 false
+      pure ((if o then OPEN else []) ++ [c] ++ b, o')
+    else do
+      let (b, o') ← absCD ver ce rest 0 true
+      pure ((if o then [] else CLOSE) ++ ncrText c ++ b, o')
+
+/-- `writeCDATA` on characters -/
+def absCDATA (ver : Ver) (ce : Nat → Bool) (cs : List Nat) : Except Err (List Nat) := do
+  let (b, o) ← absCD ver ce cs 0 false
+  pure (OPEN ++ b ++ (if o then [] else CLOSE))
+
+/-- a character that stands for itself inside a CDATA section (no line-end normalisation applies to it) -/
+def insideOk (ver : Ver) (c : Nat) : Bool :=
+  legalChar ver c && !(c == 13) && !(decide (ver = .v11) && (restricted11 c || c == 0x85 || c == 0x2028))
+
+/-- reader for character data with CDATA sections (XML §2.7): outside a section references and literal characters
+as in `readOne`; inside, everything up to the *first* `]]>` is literal — detected causally by counting the `]`
+seen so far (`some nb` = inside with `nb` brackets pending).  Sections containing a character that line-end
+normalisation would change are rejected (restriction of a conforming parser). -/
+def readCDF (ver : Ver) : Nat → Option Nat → List Nat → Option (List Nat)
+  | _, none, [] => some []
+  | _, some _, [] => none
+  | 0, _, _ :: _ => none
+  | f + 1, none, c :: r =>
+    if (c :: r).take 9 = OPEN then readCDF ver f (some 0) (r.drop 8)
+    else match readOne ver false (c :: r) with
+      | some (v, r') => (readCDF ver f none r').map (v :: ·)
+      | none => none
+  | f + 1, some nb, c :: r =>
+    if c = 93 then readCDF ver f (some (nb + 1)) r
+    else if c = 62 ∧ 2 ≤ nb then (readCDF ver f none r).map (List.replicate (nb - 2) 93 ++ ·)
+    else if insideOk ver c then (readCDF ver f (some 0) r).map (List.replicate nb 93 ++ [c] ++ ·)
+    else none
+
+def readCD (ver : Ver) (l : List Nat) : Option (List Nat) := readCDF ver l.length none l
+
 end XalanModel.C04.Spec
